@@ -7,6 +7,7 @@ import (
 	"errors"
 	"fmt"
 	"runtime"
+	"sort"
 	"strings"
 	"sync"
 	"sync/atomic"
@@ -1134,7 +1135,17 @@ func sameFilter(a, b *query) bool {
 	if a.kind != b.kind || a.object != b.object || a.relation != b.relation || a.user != b.user {
 		return false
 	}
-	return fmt.Sprint(a.conds, a.subjects(), a.objIDs, a.objIDs == nil, refsStr(a.refs)) == fmt.Sprint(b.conds, b.subjects(), b.objIDs, b.objIDs == nil, refsStr(b.refs))
+	// the key functions sort these lists: reordered lists are the same filter
+	f := func(q *query) string {
+		return fmt.Sprintf("%q %q %q %v %q", sorted(q.conds), sorted(q.subjects()), sorted(q.objIDs), q.objIDs == nil, sorted(refsStr(q.refs)))
+	}
+	return f(a) == f(b)
+}
+
+func sorted(xs []string) []string {
+	out := append([]string(nil), xs...)
+	sort.Strings(out)
+	return out
 }
 
 func refsStr(rs []*openfgav1.RelationReference) []string {
